@@ -238,6 +238,6 @@ META = {
 
 
 # sentences appended to the level texts by later rounds (kept apart so that the original texts stay readable)
-ADDENDA = {'C01': ' Round 9: a scan step that emits a text shorter than the match continues at the end of exactly that text (TOK-12, abstract state on the CFG of the scan loop). Round 10: every compiled lexical pattern is blind to the spelling of line breaks (RX-13, regular-language inclusion of the LF->CRLF / CR image). Round 11: TOK-12 also covers text that goes into a pending prefix and a continuation at the end of the line.', 'C09': ' Round 9: TOK-12 (emitted text vs. scan position), RX-12 (the BOM is recognised only with startswith / whole-value comparison), NORM-13 (split_prefix gets a start computed from that leaf). Round 10: RX-13; POS-1 (no offset recovered by searching for the text).', 'C03': ' Round 9: RX-12 (the BOM constant is never searched for inside text). Round 10: POS-1 (no offset recovered by searching for the text).', 'C11': ' Round 9: leaf classes with the single-line end_pos (the key of the position lookup) receive no token kind whose text can contain a line break (TREE-8).', 'C13': ' Round 9: every exception class a codec probe of the string checks may raise is caught (EXC-3, exception-escape analysis); NORM-13. Round 11: IDX-1.', 'C16': ' Round 9: a temporary file that is renamed onto the pickle is private to the entry (CACHE-4). Round 11: entries are pickled verbatim (CACHE-9); the pickle write does not depend on the cache file that is already there (CACHE-10).', 'C17': ' Round 9: no file is memory-mapped (CACHE-8: truncation by a concurrent writer would be SIGBUS); CACHE-4 private temporary. Round 11: CACHE-9, CACHE-10.', 'C19': ' Round 9: every return of the default Normalizer.visit is the leaf rendering or the join of all children (TREE-5). Round 11: an activation-local memo stores under a key only what the key determines (LMEMO-1).', 'C20': ' Round 9: NORM-13 (a prefix is split with a start position computed from its own leaf). Round 11: no constant index into a freshly filtered list (IDX-1).', 'C10': ' Round 10: RX-13 (every compiled pattern of the tokenizer is blind to the spelling of line breaks).', 'C02': ' Round 10: the INDENT / DEDENT counting of the recovering parser is not reachable from error_recovery, which re-feeds tokens (PAR-14).', 'C07': ' Round 10: PAR-14.', 'C04': ' Round 9/10: chains of step-into-the-last-child tests are closed under the grammar (WRAP-1: decorated -> async_funcdef -> funcdef).', 'C06': ' Round 10: no parser state outlives a parse (EFF-1 from Grammar.parse): a valid sentence parses the same after any history.', 'C15': ' Round 10: the position code of the tree modules counts \\\\n and \\\\r alike (RX-10), for "the same line count as the positions in the tree".', 'C18': ' Round 11: classes instantiated only while a memo is built count as shared (EFF-1 inventory); LMEMO-1.'}
+ADDENDA = {'C01': ' Round 9: a scan step that emits a text shorter than the match continues at the end of exactly that text (TOK-12, abstract state on the CFG of the scan loop). Round 10: every compiled lexical pattern is blind to the spelling of line breaks (RX-13, regular-language inclusion of the LF->CRLF / CR image). Round 11: TOK-12 also covers text that goes into a pending prefix and a continuation at the end of the line.', 'C09': ' Round 9: TOK-12 (emitted text vs. scan position), RX-12 (the BOM is recognised only with startswith / whole-value comparison), NORM-13 (split_prefix gets a start computed from that leaf). Round 10: RX-13; POS-1 (no offset recovered by searching for the text). Round 12: TOK-13.', 'C03': ' Round 9: RX-12 (the BOM constant is never searched for inside text). Round 10: POS-1 (no offset recovered by searching for the text).', 'C11': ' Round 9: leaf classes with the single-line end_pos (the key of the position lookup) receive no token kind whose text can contain a line break (TREE-8).', 'C13': ' Round 9: every exception class a codec probe of the string checks may raise is caught (EXC-3, exception-escape analysis); NORM-13. Round 11: IDX-1.', 'C16': ' Round 9: a temporary file that is renamed onto the pickle is private to the entry (CACHE-4). Round 11: entries are pickled verbatim (CACHE-9); the pickle write does not depend on the cache file that is already there (CACHE-10).', 'C17': ' Round 9: no file is memory-mapped (CACHE-8: truncation by a concurrent writer would be SIGBUS); CACHE-4 private temporary. Round 11: CACHE-9, CACHE-10.', 'C19': ' Round 9: every return of the default Normalizer.visit is the leaf rendering or the join of all children (TREE-5). Round 11: an activation-local memo stores under a key only what the key determines (LMEMO-1).', 'C20': ' Round 9: NORM-13 (a prefix is split with a start position computed from its own leaf). Round 11: no constant index into a freshly filtered list (IDX-1).', 'C10': ' Round 10: RX-13 (every compiled pattern of the tokenizer is blind to the spelling of line breaks). Round 12: no tokenizer state outlives a call (EFF-1 from tokenize / tokenize_lines).', 'C02': ' Round 10: the INDENT / DEDENT counting of the recovering parser is not reachable from error_recovery, which re-feeds tokens (PAR-14). Round 12: the indentation of a logical line is decided once (TOK-13, fact-sensitive path search).', 'C07': ' Round 10: PAR-14.', 'C04': ' Round 9/10: chains of step-into-the-last-child tests are closed under the grammar (WRAP-1: decorated -> async_funcdef -> funcdef).', 'C06': ' Round 10: no parser state outlives a parse (EFF-1 from Grammar.parse): a valid sentence parses the same after any history.', 'C15': ' Round 10: the position code of the tree modules counts \\\\n and \\\\r alike (RX-10), for "the same line count as the positions in the tree".', 'C18': ' Round 11: classes instantiated only while a memo is built count as shared (EFF-1 inventory); LMEMO-1.', 'C14': ' Round 12: GR-8a by role - every scope search descends through a table that contains every node type from which its targets are reachable.', 'C08': ' Round 12: the tables are a function of the arguments alone (EFF-1 from generate_grammar).'}
 
 TECH_ADDENDA = {'C01': ' + abstract (token text, scan position) state on the CFG of the scan loop', 'C09': ' + abstract (token text, scan position) state on the CFG of the scan loop + BOM API-ban lint', 'C13': ' + exception-escape analysis of the codec probes', 'C15': ' + binary-read / who-may-decode rule on the source acquisition path', 'C17': ' + definite assignment over cache.py + memory-mapping ban', 'C11': ' + language emptiness (line breaks) of token kinds mapped to single-line leaf classes', 'C10': ' + homomorphic-image inclusion (line-break spellings) on the compiled patterns', 'C04': ' + grammar-derived wrapper-closure of unwrap chains', 'C02': ' + call-graph reachability (token re-feed vs. indent bookkeeping)', 'C06': ' + effect analysis from Grammar.parse'}
